@@ -38,6 +38,8 @@ import TexcraftModel.Lemmas.C11Norm
 import TexcraftModel.Lemmas.C11NormReach
 import TexcraftModel.Lemmas.C11NormPack
 import TexcraftModel.Lemmas.C11Parse
+import TexcraftModel.Model.C11Words
+import TexcraftModel.Lemmas.C11Words
 
 namespace C11.Thm
 open C11
@@ -243,6 +245,48 @@ latter: -/
 example :
     let P : Prog := ⟨[⟨none, 66, .kern 5⟩], some 0, none⟩
     nwf P [] = false ∧ (normalise P []).1.lb = none ∧ (normalise P []).1.instrs = [] := by decide
+
+/-! ## Words (`Model/C11Words.lean`): the byte level of the lig/kern sub-file -/
+
+/-- **word_roundtrip.** Decoding (as TeX / TFtoPL.2014.13 read a word: skip byte < 128 = steps
+to pass over, 128 = stop, > 128 = unconditional stop with a restart address) an encoded
+(serialize.rs) LIG/KRN step gives the step back — in particular SKIP counts up to the
+format's maximum 127 survive. The harness hands the *raw* words of t0, t1 to this decoder and
+compares `C05.rule` on them, independently of the Rust reader. -/
+theorem word_roundtrip (rb : Option Nat) (i : Instr) (w : Word) (hok : wordOk i = true)
+    (hop : i.op.isRedirect = false) (he : encodeWord rb i = some w) : decodeWord w = i :=
+  word_roundtrip_step rb i w hok hop he
+
+/-- A redirect word decodes to an unconditional stop with the same restart address. -/
+theorem word_roundtrip_redirect_word (rb next : Option Nat) (right u : Nat) (flag : Bool) (w : Word)
+    (hu : u < 65536) (he : encodeWord rb ⟨next, right, .redirect u flag⟩ = some w) :
+    decodeWord w = ⟨none, w.b1, .redirect u true⟩ :=
+  word_roundtrip_redirect rb next right u flag w hu he
+
+/-- The "skip byte = 255" test by which the reader finds the boundary character (word 0)
+and the left-boundary program (last word) is `skip255`, the predicate `pack_boundary` uses. -/
+theorem skip_byte_255 (rb : Option Nat) (i : Instr) (w : Word) (hok : wordOk i = true)
+    (he : encodeWord rb i = some w) : (w.b0 = 255) ↔ skip255 rb i = true :=
+  skip255_encode rb i w hok he
+
+example : decodeWord ⟨127, 65, 128, 3⟩ = ⟨some 127, 65, .kernAt 3⟩ ∧
+    decodeWord ⟨128, 65, 5, 66⟩ = ⟨none, 65, .lig 66 4⟩ ∧
+    encodeWord none ⟨some 127, 65, .kernAt 3⟩ = some ⟨127, 65, 128, 3⟩ := by decide
+
+/-- **seven_bit_safe_sound.** PLtoTF's syntactic test on the lig/kern program (`ligSafe`, the
+lig/kern part of `safe7`, which the harness evaluates on the raw bytes of t0 to decide when
+`NotReallySevenBitSafe` may be raised and what flag t1 must carry) implies the semantic
+statement: a seven-bit left character and a seven-bit right character never have a ligature
+rule that inserts an eight-bit character. -/
+theorem seven_bit_safe_sound (instrs : List Instr) (lb rb : Option Nat) (entries : List (Nat × Nat)) (ks : List Int)
+    (h : ligSafe instrs entries = true) (c r z : Nat) (p : C05.PostLig) (hc : c < 128) (hr : r < 128)
+    (hrule : C05.rule (toC05 ⟨instrs, lb, rb⟩ entries ks) (some c) r = some (.lig z p)) : z < 128 :=
+  ligSafe_sound instrs lb rb entries ks h c r z p hc hr hrule
+
+/-- A step `a + 0xA8 → 0xE4` of a seven-bit character does not make the font unsafe (the right
+character is not seven-bit); the same step on a seven-bit right character does. -/
+example : ligSafe [⟨none, 0xA8, .lig 0xE4 7⟩] [(97, 0)] = true ∧
+    ligSafe [⟨none, 0x28, .lig 0xE4 7⟩] [(97, 0)] = false := by decide
 
 /-- **sem_check_sound.** The comparison the driver runs on the instruction lists decoded
 from t0 and t1 (`firstRuleDiff`, which searches only left characters with an entry point and
